@@ -13,6 +13,7 @@ from collections import defaultdict
 
 from .. import codec
 from ..build import AnalysisBroken
+from ..effects import classify_use
 
 UNITS = 'all'
 
@@ -393,6 +394,7 @@ def run(prog, run):
     rule_escaping(prog, run, classes)
     rule_descendant_axis(prog, run)
     rule_offset_sign(prog, run)
+    rule_reader_shape(prog, run)
 
 
 # --------------------------------------------------------------------------- R3
@@ -797,3 +799,163 @@ def rule_offset_sign(prog, run):
                       'with the wrong sign' % f.fmt(bad[0][2], inline=True)[:40])
     else:
         run.ok(rid, f.loc(sign_decisions[0][1]), 'sign decided on %s' % f.fmt(sign_decisions[0][2], inline=False)[:30])
+
+
+# --------------------------------------------------------------------------- R9 / R10 / R11: shape of the readers
+LIST_TYPES = ('QVector<', 'QList<', 'std::vector<', 'QStringList')
+GROW = ('append', 'push_back', 'emplace_back', 'operator<<', 'operator+=', 'insert', 'prepend', 'push_front', 'reserve', 'clear', 'operator=', 'swap', 'resize', 'squeeze',
+        'shrink_to_fit')
+# set-valued members whose reader de-duplicates on purpose (one reason each)
+SHRINK_OK = {'QXmppMessageReaction::parse': 'XEP-0444: the emojis of a reaction are a set; the parser sorts and drops duplicates'}
+_WIDTH = {'qint64': 64, 'quint64': 64, 'uint64_t': 64, 'int64_t': 64, 'long long': 64, 'unsigned long long': 64, 'qulonglong': 64, 'qlonglong': 64, 'unsigned long': 64,
+          'long': 64, 'size_t': 64, 'std::size_t': 64, 'int': 32, 'unsigned int': 32, 'uint': 32, 'uint32_t': 32, 'int32_t': 32, 'quint32': 32, 'qint32': 32, 'unsigned': 32,
+          'quint16': 16, 'qint16': 16, 'uint16_t': 16, 'int16_t': 16, 'short': 16, 'unsigned short': 16, 'ushort': 16, 'quint8': 8, 'qint8': 8, 'uint8_t': 8,
+          'unsigned char': 8, 'uchar': 8}
+_CONV = {'toInt': 32, 'toUInt': 32, 'toShort': 16, 'toUShort': 16, 'toLong': 64, 'toULong': 64, 'toLongLong': 64, 'toULongLong': 64}
+
+
+def _int_width(t):
+    t = (t or '').replace('const ', '').replace('&', '').strip()
+    m = re.match(r'std::optional<(.*)>$', t)
+    if m:
+        t = m.group(1).strip()
+    return _WIDTH.get(t)
+
+
+def _is_parser(prog, f):
+    top = f
+    while top.is_lambda and top.parent_id in prog.fns:
+        top = prog.fns[top.parent_id]
+    return (top.name.startswith('parse') or top.name == 'fromDom') and not top.raw.get('dependent'), top
+
+
+def _text_conversion_width(prog, f, nid, depth=0):
+    """narrowest text->integer conversion an expression is computed from (through locals and same-file helpers), or None"""
+    best = None
+    for j in f.walk(nid):
+        m = f.nodes[j]
+        if m['k'] != 'call':
+            continue
+        nm = (f.sym(m) or {}).get('name')
+        if nm in _CONV and (f.cname(m).startswith(('QString::', 'QStringView::', 'QByteArray::', 'QLatin1String::'))):
+            best = _CONV[nm] if best is None else min(best, _CONV[nm])
+        elif depth < 2 and not m.get('op'):
+            for g in prog.callee_fns(f, m):
+                if g.entry is not None and g.file == f.file and g.id != f.id and _int_width(g.raw.get('ret') or m.get('t')) is not None:
+                    for _, rn in g.returns():
+                        if 'e' in rn:
+                            w = _text_conversion_width(prog, g, rn['e'], depth + 1)
+                            if w is not None:
+                                w = min(w, _int_width(m.get('t')) or w)
+                                best = w if best is None else min(best, w)
+    return best
+
+
+def _reader_shape_findings(prog, fns):
+    """[(rule, fn, node, key, message)] for the three reader-shape rules over the given functions"""
+    out = []
+    for f in fns:
+        if f.entry is None or f.raw.get('dependent'):
+            continue
+        isp, top = _is_parser(prog, f)
+        if not isp:
+            continue
+        # R9: a child / attribute read that is control-dependent on the value of another attribute of the element being parsed
+        for i, n in f.calls():
+            cn = f.cname(n)
+            if cn not in ('QXmpp::Private::firstChildElement', 'QDomNode::firstChildElement', 'QDomElement::attribute', 'QDomElement::text', 'QDomElement::attributeNS',
+                          'QXmpp::Private::iterChildElements', 'QDomElement::hasAttribute'):
+                continue
+            mine = f.strval(n['args'][1]) if cn.startswith('QXmpp::Private::') and len(n.get('args', [])) > 1 else (f.strval(n['args'][0]) if n.get('args') else None)
+            for c, pol in f.atomic_assertions_at(i):
+                bo = f.binop(f.skip(c))
+                if not bo or bo[0] not in ('==', '!='):
+                    continue
+                for x, y in ((bo[1], bo[2]), (bo[2], bo[1])):
+                    xn = f.nodes[f.skip(x)]
+                    cv = f.const_value(y)
+                    if xn['k'] == 'call' and f.cname(xn) == 'QDomElement::attribute' and cv and cv[0] == 'str' and xn.get('args'):
+                        other = f.strval(xn['args'][0])
+                        if other and other != mine and i not in set(f.walk(c)):
+                            out.append(('R9', f, i, '%s#read-guarded-by-attribute:%s' % (top.qname, other),
+                                        '%s reads %s only when the attribute "%s" %s "%s", while nothing ties the writer to that condition: an object whose field is set '
+                                        'with another %s serializes the field and does not read it back' % (top.display()[:50], ('<%s/>' % mine) if mine else 'a child / attribute',
+                                                                                                           other, '==' if (bo[0] == '==') == (pol is True) else '!=', cv[1], other)))
+        # R10: while parsing, a multi-valued member only grows
+        for i, n in enumerate(f.nodes):
+            if n['k'] == 'mem' and any((n.get('t') or '').replace('const ', '').startswith(x) for x in LIST_TYPES):
+                k, h = classify_use(f, i)
+                if k == 'write' and h.split(' ')[0] not in GROW and not h.startswith('assign') and top.qname not in SHRINK_OK:
+                    out.append(('R10', f, i, '%s#list-member-%s:%s' % (top.qname, h.split(' ')[0], n['name']),
+                                '%s %s the multi-valued member %s while parsing: an entry that was read from the input is overwritten or dropped, so a list with such '
+                                'entries does not survive serialize/parse' % (top.display()[:50], 'applies %s to' % h.split(' ')[0], n['name'])))
+        for i, n in list(f.all_nodes('assign')) + [(i, n) for i, n in f.calls() if n.get('op') == '=' and len(n.get('opargs', [])) == 2]:
+            lhs = f.nodes[f.skip(n['l'] if n['k'] == 'assign' else n['opargs'][0])]
+            src = None
+            if lhs['k'] == 'call' and lhs.get('op') == '*' and lhs.get('opargs'):
+                src = f.nodes[f.skip(lhs['opargs'][0])]
+            elif lhs['k'] == 'un' and lhs.get('op') == '*':
+                src = f.nodes[f.skip(lhs['e'])]
+            elif lhs['k'] == 'var' and lhs.get('vk') == 'local' and (f.defs().get(lhs['decl']) or {}).get('ref'):
+                src = lhs          # a reference bound to an element (range-for over the member, find result)
+            if src is None or src['k'] != 'var' or src.get('vk') != 'local':
+                continue
+            member = None
+            d0 = f.single_def(src['decl'])
+            roots = [d0] if d0 is not None else []
+            for b in f.blocks.values():
+                t = b.get('term')
+                if t and t.get('k') == 'rangefor' and t.get('loopvar') == src['decl']:
+                    roots.append(t['range'])
+            for r0 in roots:
+                for j in f.walk(r0):
+                    m = f.nodes[j]
+                    if m['k'] == 'mem' and any((m.get('t') or '').replace('const ', '').startswith(x) for x in LIST_TYPES):
+                        member = m['name']
+            if member and top.qname not in SHRINK_OK:
+                out.append(('R10', f, i, '%s#list-member-overwrite:%s' % (top.qname, member),
+                            '%s overwrites an entry of the multi-valued member %s while parsing (through %s): of two entries of the input only one survives, so the list does '
+                            'not come back as it was written' % (top.display()[:50], member, src.get('name') or 'an iterator')))
+        # R11: the text->integer conversion is at least as wide as the member it fills
+        for i, n in list(f.all_nodes('assign')) + [(i, n) for i, n in f.calls() if n.get('op') == '=' and len(n.get('opargs', [])) == 2]:
+            l = f.nodes[f.skip(n['l'] if n['k'] == 'assign' else n['opargs'][0])]
+            r = n['r'] if n['k'] == 'assign' else n['opargs'][1]
+            if l['k'] != 'mem':
+                continue
+            wl = _int_width(l.get('t'))
+            if not wl:
+                continue
+            w = _text_conversion_width(prog, f, r)
+            if w is not None and w < wl:
+                out.append(('R11', f, i, '%s#narrow-conversion:%s' % (top.qname, l['name']),
+                            '%s fills the %d-bit member %s from a %d-bit text conversion: a value the writer emits correctly (QString::number of the %d-bit member) that does not '
+                            'fit %d bits is read back as 0' % (top.display()[:50], wl, l['name'], w, wl, w)))
+    return out
+
+
+def rule_reader_shape(prog, run):
+    import os
+    from .. import build, facts
+    r9 = run.rule('C01.R9', 'a reader does not make reading a child or attribute depend on the value of another attribute of the same element (the writers emit their fields '
+                            'whatever the other fields hold): zero expected, positive control in controls/c01_controls.cpp', floor=1)
+    r10 = run.rule('C01.R10', 'while parsing, a multi-valued member only grows: no reader overwrites or removes an entry it has read (listed exceptions: set-valued members '
+                              'with a reason)', floor=1)
+    r11 = run.rule('C01.R11', 'the text-to-integer conversion of a reader is at least as wide as the member it fills (directly, through a local or a same-file helper)', floor=1)
+    rids = {'R9': r9, 'R10': r10, 'R11': r11}
+    cpath = os.path.join(build.VERIF, 'controls', 'c01_controls.cpp')
+    cprog = facts.Program(build.extract_control(cpath))
+    got = {(r, _is_parser(cprog, f)[1].name) for r, f, i, k, m in _reader_shape_findings(cprog, list(cprog.fns.values()))}
+    want = {('R9', 'parseGuardedByOtherAttribute'), ('R10', 'parseOverwritesEntry'), ('R11', 'parseNarrow'), ('R11', 'parseNarrowThroughHelper')}
+    if not want <= got:
+        raise AnalysisBroken('C01.R9-R11: positive controls not reported: %s' % sorted(want - got))
+    fns = [f for f in prog.fns.values() if '/src/' in f.file]
+    found = _reader_shape_findings(prog, fns)
+    nparsers = sum(1 for f in fns if f.entry is not None and not f.is_lambda and _is_parser(prog, f)[0])
+    for r, f, i, key, msg in found:
+        run.instance(rids[r])
+        run.violation(rids[r], key, f.loc(i), msg)
+    for r in ('R9', 'R10', 'R11'):
+        if not any(x[0] == r for x in found):
+            run.instance(rids[r])
+            run.ok(rids[r], 'src/base', 'none among %d parse functions (the control is reported)' % nparsers)
+    return nparsers
